@@ -59,8 +59,21 @@ def run(ctx: Ctx, proofs_ok: bool):
         obs = []
         seen = []
         bad = None
+        rows_hist = []
         for b in hist:
+            # every third history feeds multi-dimensional batches ([B,S], as POMO's [batch, num_starts] advantages;
+            # sometimes [B,S,1]): the statistics must count every VALUE, whatever the shape of the batch
+            rows = [[x] for x in b]
             t = torch.tensor(b, dtype=dt)
+            if i % 3 == 1 and len(b) >= 2:
+                divs = [d for d in range(2, len(b) + 1) if len(b) % d == 0]
+                S = rng.choice(divs)
+                rows = [b[k:k + S] for k in range(0, len(b), S)]
+                t = torch.tensor(rows, dtype=dt)
+                if rng.random() < 0.3:
+                    t = t.unsqueeze(-1)
+                ctx.count("scaler_batches_multidim")
+            rows_hist.append(rows)
             sc.update(t)
             seen += b
             obs.append((int(sc.count), F(sc.mean), F(sc.M2)))
@@ -72,11 +85,12 @@ def run(ctx: Ctx, proofs_ok: bool):
         mean = sum(xs) / n
         ssd = sum((x - mean) ** 2 for x in xs)
         if int(sc.count) != n or abs(F(sc.mean) - mean) > tol * (1 + abs(mean)) or abs(F(sc.M2) - ssd) > tol * (1 + abs(ssd)):
-            bad = {"unit": "RewardScaler.update", "dtype": kind, "history": hist,
+            bad = {"unit": "RewardScaler.update", "dtype": kind, "history": hist, "history_as_rows": rows_hist,
                    "observed": {"count": int(sc.count), "mean": float(sc.mean), "M2": float(sc.M2)},
                    "expected": {"count": n, "mean": float(mean), "M2": float(ssd)}}
             spec_fail.append(bad)
-        steps = clist("(%s, (%s, %s, %s))" % (clist(cq(Fraction(x)) for x in b), cz(c), cq(m), cq(M)) for b, (c, m, M) in zip(hist, obs))
+        steps = clist("(%s, (%s, %s, %s))" % (clist(clist(cq(Fraction(x)) for x in r) for r in rows), cz(c), cq(m), cq(M))
+                      for rows, (c, m, M) in zip(rows_hist, obs))
         cases.append("(%s, %s)" % (cq(tol), steps))
         meta.append({"unit": "scaler", "dtype": kind, "batches": [len(b) for b in hist], "mag": mag})
         ctx.seen({"s": hist, "k": kind}, nontrivial=len(hist) >= 2)
@@ -86,7 +100,7 @@ def run(ctx: Ctx, proofs_ok: bool):
             ctx.sample({"unit": "RewardScaler.update", "dtype": kind, "history": hist,
                         "impl_final": {"count": int(sc.count), "mean": float(sc.mean), "M2": float(sc.M2)}})
     try:
-        codes = coq_eval_shards("cases_C20_scaler", HEADER, "Q * list (list Q * scaler_obs)", "check_scaler", cases, shard=30)
+        codes = coq_eval_shards("cases_C20_scaler", HEADER, "Q * list (list (list Q) * scaler_obs)", "check_scaler", cases, shard=30)
     except RuntimeError as e:
         codes = None
         ctx.broken.append("correspondence C20/scaler could not be evaluated: %s" % str(e)[-600:])
